@@ -6,6 +6,8 @@ multiplication wraps for significands in a sliver of relative width ~1e-19 just 
 the quick checks of the properties that exercise the file are run; prints one line per guard.
 Do not run other checks concurrently (they rebuild from /repo's working tree)."""
 import subprocess, re, os, sys, json
+REPO = os.environ.get('MUT_REPO', '/repo')      # a scratch worktree of /repo and a copy of /verif whose harness/go.mod
+VERIF = os.environ.get('MUT_VERIF', '/verif')  # points at it let the experiment run beside other work
 FAMILIES = {
  # widen the x10 headroom guard to the tempting exact limit (forgets the carry from the lower words)
  'A': ('<= 0x18ff_ffff_ffff_ffff', '<= 0x1999_9999_9999_9999',
@@ -28,7 +30,7 @@ env = dict(os.environ, VERIF_REGDIR='/tmp/mutreg', GOFLAGS='-mod=mod', GOPROXY='
 rows = []
 only = args
 for f, props in files.items():
-    path = '/repo/' + f
+    path = REPO + '/' + f
     src = open(path).read().split('\n')
     for i, line in enumerate(src):
         if PAT not in line or (PAT.startswith('<') and not PAT.startswith('<=') and '<= ' + PAT[2:] in line): continue
@@ -44,12 +46,12 @@ for f, props in files.items():
         try:
             det = []
             for p in props:
-                r = subprocess.run(['./run.sh', p, 'quick'], cwd='/verif', capture_output=True, text=True, env=env)
+                r = subprocess.run(['./run.sh', p, 'quick'], cwd=VERIF, capture_output=True, text=True, env=env)
                 if r.returncode == 1: det.append(p)
                 elif r.returncode != 0: det.append(p + '(exit %d)' % r.returncode)
             rows.append((tag, fn, ','.join(det) or 'NOT DETECTED'))
             print(' | '.join(rows[-1]), flush=True)
         finally:
-            subprocess.run(['git', 'checkout', '--', '.'], cwd='/repo')
+            subprocess.run(['git', 'checkout', '--', '.'], cwd=REPO)
 subprocess.run(['rm', '-rf', '/tmp/mutreg'])
 json.dump(rows, open('/tmp/guard_mutants_%s.json' % fam, 'w'))
